@@ -27,6 +27,10 @@ def _work(sc: ConcScenario):
 
 def run_conc(scs: List[ConcScenario]) -> List[Dict[str, Any]]:
     C.mir_functions()
+    for sc in scs:
+        # a third preemption is affordable only where a schedule is short: scenarios that run a whole resize stay at two
+        if sc.preemptions > 2 and ('resize' in sc.name or 'coop/' in sc.name or 'tree' in sc.name):
+            sc.preemptions = 2
     if len(scs) <= 1:
         return [_work(s) for s in scs]
     ctx = mp.get_context('fork')
